@@ -38,6 +38,10 @@ type Obligation struct {
 	Status    Status `json:"status"`
 	Pos       string `json:"pos,omitempty"`
 	Detail    string `json:"detail,omitempty"`
+	// Trivial: discharged because the unit contains no construct the rule is
+	// about (a function without any call to itself, a native that applies no
+	// accessor to the argument); counted, but not as a non-trivial case
+	Trivial bool `json:"trivial,omitempty"`
 }
 
 func (o *Obligation) Key() string { return o.Rule + "/" + o.Construct }
@@ -196,6 +200,11 @@ func (c *Ctx) add(st Status, construct string, pos token.Pos, format string, arg
 
 func (c *Ctx) OK(construct string, pos token.Pos, format string, args ...any) {
 	c.add(Discharged, construct, pos, format, args...)
+}
+// OKTrivial records a vacuous discharge (see Obligation.Trivial).
+func (c *Ctx) OKTrivial(construct string, pos token.Pos, format string, args ...any) {
+	c.add(Discharged, construct, pos, format, args...)
+	c.Obls[len(c.Obls)-1].Trivial = true
 }
 func (c *Ctx) Bad(construct string, pos token.Pos, format string, args ...any) {
 	c.add(Violated, construct, pos, format, args...)
